@@ -34,14 +34,15 @@ class MemFS:
             self.dirs.add(d)
             d = posixpath.dirname(d)
 
-    def add(self, path, text, exists=True):
+    def add(self, path, text, **kw):
         path = posixpath.normpath(path)
         self.mkdir(posixpath.dirname(path))
         if isinstance(text, (list, tuple)):
             text = "".join(l + "\n" for l in text)
         self.files[path] = text
-        if exists is not True:
-            self.maybe[path] = exists
+        if "exists" in kw:
+            # stored without looking at it: an `is`/`==` test on a symbolic bool would make CrossHair fork here
+            self.maybe[path] = kw["exists"]
 
     def symlink(self, path, target):
         path = posixpath.normpath(path)
